@@ -3,7 +3,9 @@
 P=$1; shift
 cd /repo && git apply --check "$P" || { echo "patch does not apply"; exit 9; }
 git apply "$P"
-trap 'git -C /repo checkout -- . ; git -C /repo status --short | head -3' EXIT
+# evidence written while a seeded change is applied must not survive: keep the real one aside
+EVB=$(mktemp -d /tmp/evidence-keep.XXXXXX); cp -a /verif/evidence/. $EVB/
+trap 'git -C /repo checkout -- . ; git -C /repo status --short | head -3; rm -rf /verif/evidence; mkdir -p /verif/evidence; cp -a $EVB/. /verif/evidence/; rm -rf $EVB' EXIT
 for prop in "$@"; do
   cd /verif && ./check $prop --tier ${TIER:-quick} > /tmp/try_$prop.log 2>&1; rc=$?
   echo "== $prop exit=$rc"; grep -E "^VIOLATION|^INCONCLUSIVE|^KNOWN|failure-label" /tmp/try_$prop.log | cut -c1-260 | head -8; tail -1 /tmp/try_$prop.log | cut -c1-200
